@@ -149,6 +149,8 @@ def run(ctx, replay):
 
     if os.environ.get("VERIF_C14_CFGS"):  # development aid: only these configurations
         cfgs = os.environ["VERIF_C14_CFGS"].split(";")
+    if os.environ.get("VERIF_C14_SHAPES"):  # development aid: "clients,ops,segments,blobs,mix;..."
+        shapes = [tuple(int(x) if x.isdigit() else x for x in sh.split(",")) for sh in os.environ["VERIF_C14_SHAPES"].split(";")]
     if os.environ.get("VERIF_C14_MIX"):  # development aid: only the shapes of one operation mix
         shapes = [sh for sh in shapes if sh[4] == os.environ["VERIF_C14_MIX"]]
 
